@@ -36,24 +36,24 @@ CHECKS = {
  "C10": ("exploration", "5.C10", "PROT_NONE pages on BOTH ends of the pre-allocated region (region rounded to whole pages), placement coin, register junk",
          "execute_unsafe on bcint and basejit at levels 0..3 inside a region with margin program-length+1 produces the canonical history, touches no byte outside the region and never replaces the tape block.",
          "excursion known from the reference model; region sizes <= a few thousand cells (the CLI's 2^29-cell region is C16's business)"),
- "C17": ("fault_enumeration", "3.4+5.C17", "the k-th allocation request made during execution returns null, for EVERY k up to the number of requests of the fault-free run (sampled above 24), in a forked child",
+ "C17": ("fault_enumeration", "3.4+5.C17", "the k-th allocation request made during execution returns null, for EVERY k up to the number of requests of the fault-free run (sampled above 24), in a forked child; requests no allocator can serve (2^44..2^62 cells away) through the tape API and through each executor, with the panic caught and the context dropped",
          "After a failed allocation the process ends by the allocation-failure abort (SIGABRT) or a panic; SIGSEGV/SIGBUS, a normal return, or any continuation is a violation.",
-         "requests made by Vec inside hpbf are included; compile-time allocations (Executor::create) are outside the zone"),
- "C09": ("exploration", "5.C09", "call history x allocator placement (guard page on a coin-decided side), poison in fresh memory, same-address reuse after free",
+         "requests made by Vec inside hpbf are included; compile-time allocations (Executor::create) are outside the zone; a refusal by the system itself (address-space limit under --static) is injected in C16's process scenarios"),
+ "C09": ("exploration", "5.C09", "call history x allocator placement (guard page on a coin-decided side), poison in fresh memory, same-address reuse after free; far excursions of 2^31..2^63 cells",
          "Every read returns the value last written to that logical cell (0 if never), reads and bounds queries never allocate, a requested non-empty range is accessible afterwards at both ends, set_current_ptr/current_ptr and check_ptr agree with mov/check, contents survive growth in both directions; final sweep over every cell ever written +-3.",
-         "offsets within +-4e6 cells (no isize overflow cases); ranges up to ~1e6 cells"),
+         "writes and accessibility requests within +-1.6e7 cells of the origin (ranges up to ~1e6 cells); reads, bounds queries and moves anywhere in the 64-bit index space"),
  "C11": ("exploration", "2.C+5.C11", "runtime call with full ABI clobber assumed at EVERY non-branch instruction (checked bytecode machine): every register temporary not declared live across it is destroyed",
          "Structural invariants are checked exactly on every instruction of the generated bytecode (branch targets, operands inside the access window containing 0, temporary indices, no read-and-clear operand without fusion, no leftover no-op); 'no temporary read before written / needed-after implies declared-live' is decided on EXECUTED paths only (3 peers per program), which is weaker than the all-paths statement.",
          "the checked machine is a stub executor written from bc.rs's instruction semantics; paths no peer drives are not judged"),
- "C13": ("exploration", "5.C13", "hash seeds of the bytecode generator's containers (hook H1), compile history on the same thread, process and build profile, repeated execute at two budgets",
+ "C13": ("exploration", "5.C13", "hash seeds of the bytecode generator's containers (hook H1), compile history on the same thread, process and build profile, repeated execute at two budgets; growth pairs (the same construction at size parameter k and 2k)",
          "All four executors (and the 4 machine-code variants) build without panic in both profiles; printed IR, both bytecode settings and machine code are identical under 4 hash seeds with unrelated compilations in between, and identical (IR/bytecode digests) across processes and build profiles; three executions of one executor on fresh contexts give identical histories; allocator traffic of compilation stays below 1e7 requests / 2^28 bytes for sources <= 2 kB.",
-         "'no super-polynomial blow-up' is decided as a fixed bound on a deterministic cost measure for the generated sizes (nesting <= 200), not as an asymptotic statement"),
- "C16": ("exploration", "5.C16", "process environment of the real binary: argv order and repeats, files that exist / are missing / are directories / are not UTF-8 / are empty, stdin contents and end, trailing -f, non-numeric --limit",
+         "'no super-polynomial blow-up' is decided as a fixed bound on a deterministic cost measure (allocator traffic) for the generated sizes (nesting <= 300) and as a ratio <= 32 between size parameters k and 2k for eight parametric constructions, not as an asymptotic statement"),
+ "C16": ("exploration", "5.C16", "process environment of the real binary: argv order and repeats, files that exist / are missing / are directories / are not UTF-8 / are empty / are named pipes / hold a multi-byte character on a block boundary or split over two files, stdin contents and end, trailing -f, non-numeric and repeated --limit, address-space limit under --static",
          "stdout equals the canonical output of the concatenated code under the resolved width/backend/level (defaults observed through width-revealing programs, --print-ir at default level, and budget-revealing --limit runs compared with the library); exit status 0 / 1 with diagnostic; print options equal the library's rendering and leave the stdin offset at 0.",
-         "the OS is real, not simulated; --time output is stripped; --static only with 8-bit cells; machine-code print is only checked for non-emptiness"),
- "C18": ("exploration", "5.C18", "operation history incl. the abandonment point of by-value iteration; element type with a destructor and a global drop ledger",
+         "the OS is real, not simulated; --time output is stripped; the size of the --static window is not judged (no property states it); machine-code print is only checked for non-emptiness"),
+ "C18": ("exploration", "5.C18", "operation history incl. the abandonment point of by-value iteration and a predicate that panics at its k-th call; element types with a destructor and a global drop ledger, with a value that is not equal to itself, and of size zero",
          "Slice view equals a Vec model after every operation for inline capacities 1 and 2; ==, cmp, hash, index, iteration agree with the model; at the end every created element has been dropped exactly once (0 = leak, >1 = double drop, unknown id = drop of an uninitialised slot).",
-         "/repo/src/smallvec.rs is compiled into the harness by path (the type is crate-private); panicking callbacks are out of scope (documented to leak)"),
+         "/repo/src/smallvec.rs and /repo/src/hasher.rs are compiled into the harness by path (crate-private); after a panicking predicate only 'never dropped twice, nothing dead visible' is demanded (the inline code leaks there by design)"),
 }
 EXTRA = {k: v[2] for k, v in CHECKS.items()}
 
